@@ -263,6 +263,53 @@ func main() {
 				fmt.Sprintf("stack limit=%d nesting=%d -> %s depthAtRest=%d repeatSame=%v", L, d, res, depth, same), "stack", d >= L-1 && d <= L+1)
 		}
 	}
+	// the same with built-in (native) frames in the chain: they count against the limit like script frames
+	for shape := 1; shape <= 2; shape++ {
+		for L := 1; L <= 9; L++ {
+			for d := 1; d <= L+2; d++ {
+				if shape == 2 && d > 4 {
+					continue
+				}
+				vm := otto.New()
+				vm.SetStackDepthLimit(L)
+				var decl, call string
+				if shape == 1 {
+					decl = `function f(n){ reached++; if (n > 1) { return f(n - 1); } var r = Math.abs(-1); return r; }`
+					call = fmt.Sprintf("f(%d)", d-1)
+					if d == 1 {
+						call = "Math.abs(-1)"
+					}
+				} else {
+					decl = `function f(n){ reached++; if (n > 0) { return [n].map(g)[0]; } return 0; } function g(n){ reached++; return f(n - 1); }`
+					call = fmt.Sprintf("f(%d)", d)
+				}
+				src := fmt.Sprintf(`var reached = 0; %s var caught = "none"; try { %s; } catch (e) { caught = e.name; } caught + "," + reached`, decl, call)
+				o := RunJS(vm, src)
+				res := "!"
+				if o.Panic == nil && o.Err == nil {
+					res = o.Val.String()
+				}
+				depth, _ := vm.VerifScopeDepth()
+				var caught string
+				var reached int
+				if parts := strings.Split(res, ","); len(parts) == 2 {
+					caught = parts[0]
+					fmt.Sscanf(parts[1], "%d", &reached)
+				}
+				cls := int64(9)
+				switch caught {
+				case "none":
+					cls = 0
+				case "RangeError":
+					cls = 3
+				}
+				o2 := RunJS(vm, fmt.Sprintf(`var c2 = "none"; reached = 0; try { %s; } catch (e) { c2 = e.name; } c2`, call))
+				same := o2.Panic == nil && o2.Err == nil && o2.Val.String() == caught
+				env.Add(fmt.Sprintf("StackCase2 %d %d %d %s %d %s %s", shape, L, d, Cz(cls), reached, Cz(int64(depth)), Cbool(same)),
+					fmt.Sprintf("stack limit=%d shape=%d (%s) d=%d -> %s depthAtRest=%d repeatSame=%v", L, shape, call, d, res, depth, same), "stack-native", true)
+			}
+		}
+	}
 	// promptness: programs that would run forever must be stopped by one interrupt sent from another goroutine
 	spinners := []string{
 		`for (;;) {}`, `for (;;);`, `while (true) {}`, `while (true);`, `do {} while (true);`, `do ; while (true);`,
@@ -388,6 +435,55 @@ func main() {
 		}
 		env.Add(fmt.Sprintf("LCase %d %s %s %s", 200+i, Cbool(stopped), Cbool(asPanic), Cbool(rest)),
 			fmt.Sprintf("LCase interrupt queued for the original while a copy (depth %d) runs a script: copy unaffected=%v; original stopped=%v asPanic=%v", depth, copyOK, stopped, asPanic), "copy-channel", true)
+	}
+	// a host function that panics at unusual points of the interpreter (conversions run by the host boundary itself,
+	// accessors, callbacks of built-ins, nested entry points): Run must unwind with THAT panic and be at rest
+	for i, src := range []string{
+		`throw { toString: function () { boom(); return "x"; } };`,
+		`throw { name: "E", get message() { boom(); return "m"; }, toString: function () { return this.name + this.message; } };`,
+		`var o = { valueOf: function () { boom(); return 1; } }; o + 1;`,
+		`({ get x() { boom(); return 1; } }).x;`,
+		`var q = {}; Object.defineProperty(q, "y", { set: function (v) { boom(); } }); q.y = 1;`,
+		`[1].forEach(function () { boom(); });`,
+		`[2, 1].sort(function (a, b) { boom(); return 0; });`,
+		`JSON.stringify({ toJSON: function () { boom(); } });`,
+		`"a".replace(/a/, function () { boom(); return "b"; });`,
+		`eval("boom()");`, `(0, eval)("boom()");`, `new Function("boom()")();`,
+		`String({ toString: function () { boom(); } });`,
+		`new Error({ toString: function () { boom(); return "e"; } });`,
+		`function F() { boom(); } new F();`, `(function () { boom(); }).call(null);`, `(function () { boom(); }).bind(null)();`,
+		`for (var k in { a: 1 }) { boom(); }`, `switch (boom()) { case 1: }`, `with ({}) { boom(); }`,
+	} {
+		vm := otto.New()
+		_ = vm.Set("boom", func(c otto.FunctionCall) otto.Value { panic(haltMsg) })
+		o := RunJS(vm, src)
+		s2, isStr := o.Panic.(string)
+		asPanic := isStr && s2 == haltMsg
+		d, _ := vm.VerifScopeDepth()
+		fo := RunJS(vm, `6 * 7`)
+		n, _ := fo.Val.ToInteger()
+		rest := d == -1 && vm.VerifLabelCount() == 0 && fo.Err == nil && fo.Panic == nil && n == 42
+		env.Add(fmt.Sprintf("LCase %d %s %s %s", 300+i, Cbool(true), Cbool(asPanic), Cbool(rest)),
+			fmt.Sprintf("LCase host panic raised in %q: unwound with the host's panic=%v (got panic=%v err=%v) atRestAndFollowup=%v", src, asPanic, o.Panic, o.Err, rest), "host-panic-points", true)
+	}
+	// script-level errors raised inside nested entry points (eval, indirect eval, Function, JSON.parse, RegExp), caught
+	// and uncaught: afterwards the call stack is back at rest and the stack limit admits the same nesting as before
+	for i, inner := range []string{
+		`(0, eval)("(")`, `eval("(")`, `Function("(")`, `new Function("a b")`, `JSON.parse("{")`, `new RegExp("(")`,
+		`(0, eval)("throw 1")`, `(0, eval)("nowhere()")`, `eval("nowhere()")`, `(0, eval)("var x = ;")`, `Function("return nowhere()")()`,
+		`(0, eval)("(0, eval)('(')")`,
+	} {
+		for v, src := range []string{inner + ";", "try { " + inner + "; } catch (e) { }", "function h() { try { " + inner + "; } catch (e) { return 1; } } h(); h();"} {
+			vm := otto.New()
+			vm.SetStackDepthLimit(8)
+			_ = RunJS(vm, src)
+			_ = RunJS(vm, src)
+			d, _ := vm.VerifScopeDepth()
+			pr := RunJS(vm, `function f(n) { return n > 1 ? f(n - 1) + 1 : 1; } var a = f(7), b; try { f(8); b = "none"; } catch (e) { b = e.name; } a + "," + b`)
+			rest := d == -1 && vm.VerifLabelCount() == 0 && pr.Err == nil && pr.Panic == nil && pr.Val.String() == "7,RangeError"
+			env.Add(fmt.Sprintf("LCase %d %s %s %s", 400+3*i+v, Cbool(true), Cbool(true), Cbool(rest)),
+				fmt.Sprintf("LCase error inside a nested entry point, twice: %q: depthAtRest=%d, then f(7),f(8) under limit 8 -> %v", src, d, pr.Val), "nested-entry-errors", true)
+		}
 	}
 	withScenarios(env)
 	for env.Count() < env.N {
